@@ -20,7 +20,8 @@ pub struct TimeoutCase {
     pub micros: u32,
     pub nanos: u16,
     /// 0 none; 1 the first ppoll is answered EINTR without executing; 2 the first ppoll really
-    /// waits and is then answered EINTR (the kernel has written the remaining time back)
+    /// waits and is then answered EINTR (the kernel has written the remaining time back);
+    /// 3 real signals (no SA_RESTART) hit the waiting thread at 20 %, 45 % and 70 % of the limit
     pub eintr: u8,
     /// for op 3: how the timed stream was obtained: 0 connect, 1 accept, 2 try_accept,
     /// 3 accept_with_timeout
@@ -41,13 +42,21 @@ pub fn run_timeout(c: &TimeoutCase) -> CaseResult {
     }
 }
 
-fn plan_eintr(mode: u8) {
+fn plan_eintr(mode: u8, limit: Duration) -> Option<Interrupter> {
     let e = sc::verif::neg_errno(EINTR);
+    if mode == 3 {
+        // real signals at 20 %, 45 % and 70 % of the limit: the wait is interrupted several times
+        // after real time has passed (only the lower bound on the total is judged)
+        sc::verif::clear_plan();
+        let us = limit.as_micros() as u64;
+        return Some(Interrupter::start(vec![us / 5, us * 9 / 20, us * 7 / 10]));
+    }
     match mode {
         1 => sc::verif::plan(vec![sc::verif::Rule { nr: Some(sc::nr::PPOLL), nth: Some(0), action: sc::verif::Action::ForceRet(e), times: 1 }]),
         2 => sc::verif::plan(vec![sc::verif::Rule { nr: Some(sc::nr::PPOLL), nth: Some(0), action: sc::verif::Action::ExecThenRet(e), times: 1 }]),
         _ => sc::verif::clear_plan(),
     }
+    None
 }
 
 fn inner(c: &TimeoutCase) -> Result<CaseReport, Stop> {
@@ -69,13 +78,14 @@ fn inner(c: &TimeoutCase) -> Result<CaseReport, Stop> {
                 std::thread::sleep(Duration::from_millis(300));
                 drop(c);
             });
-            plan_eintr(c.eintr);
+            let intr = plan_eintr(c.eintr, d);
             let t0 = Instant::now();
             let r = no_panic(opname, || match &mut b.l {
                 TinyListener::U(l) => UnixListener::accept_with_timeout(l, d).map(|_s| true),
                 TinyListener::T(l) => l.accept_with_timeout(d).map(|_s| true),
             });
             let el = t0.elapsed();
+            drop(intr);
             if let Some(wait) = hw.finish() {
                 sc::verif::clear_plan();
                 return Err(stop_fail(format!("{opname}|never-timed-out|blocked in an untimed wait"), format!("{opname}({d:?}) with nobody connecting was still parked in {wait} {el:?} after the call; it came back only when the harness connected")));
@@ -89,10 +99,11 @@ fn inner(c: &TimeoutCase) -> Result<CaseReport, Stop> {
             let _filler = libc_tcp_connect(port, false).map_err(|e| Stop::Inconclusive(format!("filler connect: errno {e}")))?;
             let _filler2 = libc_tcp_connect(port, true).map_err(|e| Stop::Inconclusive(format!("filler connect: errno {e}")))?;
             let addr = loopback(port);
-            plan_eintr(c.eintr);
+            let intr = plan_eintr(c.eintr, d);
             let t0 = Instant::now();
             let r = no_panic(opname, || TcpStream::connect_with_timeout(&addr, d).map(|_s| true));
             let el = t0.elapsed();
+            drop(intr);
             drop(l);
             (r?, el)
         }
@@ -162,10 +173,11 @@ fn inner(c: &TimeoutCase) -> Result<CaseReport, Stop> {
                 // release the call: the silent peer speaks
                 unsafe { libc::write(pfd, b"!".as_ptr().cast(), 1) };
             });
-            plan_eintr(c.eintr);
+            let intr = plan_eintr(c.eintr, d);
             let t0 = Instant::now();
             let r = no_panic(opname, || s.read_with_timeout(&mut buf, d).map(|_n| true));
             let el = t0.elapsed();
+            drop(intr);
             returned.store(true, std::sync::atomic::Ordering::SeqCst);
             let _ = wd.join();
             drop(peer);
@@ -213,6 +225,7 @@ fn inner(c: &TimeoutCase) -> Result<CaseReport, Stop> {
     });
     rep.class_if(c.eintr == 1 && served > 0, "eintr-before-wait");
     rep.class_if(c.eintr == 2 && served > 0, "eintr-after-wait");
+    rep.class_if(c.eintr == 3, "real-signals-during-the-wait");
     rep.class_if(c.micros < 2000, "limit<2ms");
     if c.op == 3 {
         rep.class(["read-on-connected-stream", "read-on-accepted-stream", "read-on-try-accepted-stream", "read-on-timed-accepted-stream"][c.origin.min(3) as usize]);
@@ -221,5 +234,5 @@ fn inner(c: &TimeoutCase) -> Result<CaseReport, Stop> {
 }
 
 pub fn timeout_strategy() -> impl Strategy<Value = TimeoutCase> {
-    (prop_oneof![1 => Just(0u8), 1 => Just(1u8), 1 => Just(2u8), 3 => Just(3u8)], prop_oneof![3 => 1000u32..5000, 3 => 5000u32..20_000, 1 => 20_000u32..=80_000], 0u16..1000, prop_oneof![3 => Just(0u8), 1 => Just(1u8), 1 => Just(2u8)], 0u8..4).prop_map(|(op, micros, nanos, eintr, origin)| TimeoutCase { op, micros, nanos, eintr, origin })
+    (prop_oneof![1 => Just(0u8), 1 => Just(1u8), 1 => Just(2u8), 3 => Just(3u8)], prop_oneof![3 => 1000u32..5000, 3 => 5000u32..20_000, 1 => 20_000u32..=80_000], 0u16..1000, prop_oneof![3 => Just(0u8), 1 => Just(1u8), 1 => Just(2u8), 2 => Just(3u8)], 0u8..4).prop_map(|(op, micros, nanos, eintr, origin)| TimeoutCase { op, micros, nanos, eintr, origin })
 }
